@@ -227,6 +227,23 @@ class Fn:
         self.spec_inserts += 1
         return self
 
+    def at_enclosing_block_end(self, anchor, text, nth=0):
+        """spec-only: insert text just before the `}` that closes the block containing `anchor`"""
+        ms = _find_all(anchor, self.body)
+        if len(ms) <= nth:
+            raise ExtractError(f"lost anchor in {self.qual}: `{anchor[:60]}` matched {len(ms)}x")
+        i = ms[nth].end()
+        while i < len(self.body):
+            c = self.body[i]
+            if c in '{([':
+                i = match_brace(self.body, i)
+            elif c == '}':
+                break
+            i += 1
+        self.body = self.body[:i] + '\n' + text + '\n' + self.body[i:]
+        self.spec_inserts += 1
+        return self
+
     def at_start(self, text):
         self.body = '{\n' + text + '\n' + self.body[1:]
         self.spec_inserts += 1
